@@ -17,6 +17,7 @@ from optiland.rays import PolarizedRays, PolarizationState, RayGenerator
 from optiland.distribution import create_distribution
 from optiland.geometries import Plane, StandardGeometry
 from optiland.materials import IdealMaterial
+from optiland.coatings import FresnelCoating
 from optiland.visualization import OpticViewer, OpticViewer3D, LensInfoViewer
 from optiland.pickup import PickupManager
 from optiland.solves import SolveManager
@@ -243,6 +244,12 @@ class Optic:
             surfaces[k].material_post = new_material
             surfaces[k+1].material_pre = new_material
             k += 1
+
+        # a Fresnel coating is defined by the media of its surface: rebuild
+        # it on the surfaces whose media were just changed
+        for surf in surfaces[surface_number:k+1]:
+            if isinstance(surf.coating, FresnelCoating):
+                surf.set_fresnel_coating()
 
     def set_asphere_coeff(self, value, surface_number, aspher_coeff_idx):
         """
